@@ -94,6 +94,7 @@ type Frame struct {
 	loopHeads   map[*loopInfo]*State
 	loopPre     map[*loopInfo]*State
 	loopMeasure map[*loopInfo]*Term
+	mapLoopMode map[*ssa.Range]int   // map range loops: what is known when the iteration ends (see loopHead)
 	loopIter    map[*loopInfo]*State // state at the head of an arbitrary iteration (for step clauses)
 }
 
@@ -427,11 +428,32 @@ func (ex *Exec) derefLoc(st *State, p Value) *Loc {
 // CFG info
 
 type loopInfo struct {
-	head    *ssa.BasicBlock
-	ordinal int
-	blocks  []*ssa.BasicBlock
-	backs   map[*ssa.BasicBlock]bool // sources of back edges
-	rangeIx *ssa.Alloc
+	head       *ssa.BasicBlock
+	ordinal    int
+	blocks     []*ssa.BasicBlock
+	backs      map[*ssa.BasicBlock]bool // sources of back edges
+	rangeIx    *ssa.Alloc
+	rangeLen   ssa.Value  // the length the range index is compared with in the head block (computed before the loop)
+	mapRange   *ssa.Range // `for k, v := range m` over a map with a scalar key: the iterator advanced by the head block
+	mapGrows   bool       // the body stores into a map of that type (possibly another map object)
+	mapDeletes bool       // the body deletes from a map of that type
+}
+
+// visitedKey: heap key of the set of keys a map range loop has visited so far (specification state: visited(k) in the
+// invariants of that loop). One per range statement, named by the position of the statement inside its function.
+func visitedKey(rng *ssa.Range) (string, *Sort) {
+	mt := rng.X.Type().Underlying().(*types.Map)
+	ks := mapKeySort(mt)
+	idx := 0
+	if b := rng.Block(); b != nil {
+		for j, in := range b.Instrs {
+			if in == ssa.Instruction(rng) {
+				idx = b.Index*1000 + j
+			}
+		}
+	}
+	srt := ArraySort(ks, BoolSort)
+	return regKey(fmt.Sprintf("VS:%s:%d", shortName(rng.Parent().String()), idx), srt), srt
 }
 
 type cfgInfo struct {
@@ -489,6 +511,41 @@ func (eng *Engine) cfg(fn *ssa.Function) *cfgInfo {
 			if s, ok := in.(*ssa.Store); ok {
 				if a, ok := s.Addr.(*ssa.Alloc); ok && a.Comment == "rangeindex" {
 					li.rangeIx = a
+				}
+			}
+		}
+		for _, in := range h.Instrs {
+			if n, ok := in.(*ssa.Next); ok && !n.IsString {
+				if rng, ok := n.Iter.(*ssa.Range); ok {
+					if mt, ok := rng.X.Type().Underlying().(*types.Map); ok && mapKeySort(mt) != nil {
+						li.mapRange = rng
+						for _, b := range li.blocks {
+							for _, bi := range b.Instrs {
+								switch x := bi.(type) {
+								case *ssa.MapUpdate:
+									if types.Identical(x.Map.Type().Underlying(), mt) {
+										li.mapGrows = true
+									}
+								case ssa.CallInstruction:
+									if bl, isB := x.Common().Value.(*ssa.Builtin); isB && bl.Name() == "delete" && len(x.Common().Args) > 0 && types.Identical(x.Common().Args[0].Type().Underlying(), mt) {
+										li.mapDeletes = true
+									}
+								}
+							}
+						}
+					}
+				}
+			}
+		}
+		if li.rangeIx != nil {
+			// head block of a range loop over a slice / array: t1 = *rangeindex; t2 = t1 + 1; *rangeindex = t2; t3 = t2 < len
+			for _, in := range h.Instrs {
+				if b, ok := in.(*ssa.BinOp); ok && b.Op == token.LSS {
+					if x, ok := b.X.(*ssa.BinOp); ok && x.Op == token.ADD {
+						if u, ok := x.X.(*ssa.UnOp); ok && u.Op == token.MUL && u.X == ssa.Value(li.rangeIx) {
+							li.rangeLen = b.Y
+						}
+					}
 				}
 			}
 		}
@@ -786,6 +843,59 @@ func (ex *Exec) loopHead(fr *Frame, st *State, li *loopInfo, fname string) {
 		fr.loopPre[li] = pre
 	} else {
 		ex.havoc(st, ws, fmt.Sprintf("loop%d", li.ordinal), fr)
+	}
+	if li.mapRange != nil {
+		// the set of visited keys is loop state: arbitrary at the head of an arbitrary iteration (the invariants say what is known)
+		k, srt := visitedKey(li.mapRange)
+		st.heap.m[k] = Fresh(k+fmt.Sprintf(".loop%d", li.ordinal), srt)
+		mt := li.mapRange.X.Type().Underlying().(*types.Map)
+		d, _, _ := mapKeys(mt)
+		if fr.mapLoopMode == nil {
+			fr.mapLoopMode = map[*ssa.Range]int{}
+		}
+		grows := false
+		{
+			// callees in the body: entries may be added only if the static write set of the body names the map's domain
+			// and something other than the body's own delete() calls can be responsible for it
+			cw := newWriteSet()
+			for _, b := range li.blocks {
+				for _, bi := range b.Instrs {
+					if c, ok := bi.(ssa.CallInstruction); ok {
+						if bl, isB := c.Common().Value.(*ssa.Builtin); isB && (bl.Name() == "delete" || bl.Name() == "len" || bl.Name() == "cap" || bl.Name() == "append" || bl.Name() == "copy") {
+							continue
+						}
+						ex.eng.wa.instrs([]ssa.Instruction{bi}, cw, fr.fn)
+					}
+				}
+			}
+			if cw.all || cw.keys[d] {
+				grows = true
+			}
+		}
+		// 0: nothing is known at the exit; 1: the body never adds entries to such a map (it may delete): every entry still
+		// present at the exit was produced; 2: the body adds entries to such maps but never deletes: if the key set of the
+		// ranged map is the one it had when the iteration started, every entry was produced
+		mode := 0
+		switch {
+		case grows:
+		case !li.mapGrows:
+			mode = 1
+		case !li.mapDeletes:
+			mode = 2
+		}
+		fr.mapLoopMode[li.mapRange] = mode
+	}
+	if li.rangeIx != nil && li.rangeLen != nil {
+		// language fact about `for i := range s`: the hidden index is written by the head block only (previous index + 1, the
+		// loop continues while that is below the length taken before the loop): at the head it is -1 or a visited index
+		if cs := st.locals[li.rangeIx]; cs != nil && len(cs) == 1 {
+			if _, isConst := li.rangeLen.(*ssa.Const); isConst || fr.regs[li.rangeLen].C != nil {
+				n := ex.val(fr, st, li.rangeLen)
+				if len(n.C) == 1 {
+					ex.assume(st.pc, And(Ge(cs[0], IntLit(-1)), Or(Eq(cs[0], IntLit(-1)), Lt(cs[0], n.C[0]))))
+				}
+			}
+		}
 	}
 	if spec != nil {
 		for _, inv := range spec.Invariants {
@@ -1241,6 +1351,13 @@ func (ex *Exec) instr(fr *Frame, st *State, in ssa.Instruction, fname string) {
 	case *ssa.Range:
 		x := ex.val(fr, st, i.X)
 		fr.regs[i] = Value{T: i.X.Type(), C: x.C}
+		if mt, ok := i.X.Type().Underlying().(*types.Map); ok && mapKeySort(mt) != nil {
+			k, srt := visitedKey(i)
+			st.heap.m[k] = ConstArray(srt, False)
+			// the key set of the map when the iteration starts
+			dk, _, _ := mapKeys(mt)
+			st.heap.m[regKey("VD"+k[2:], srt)] = Select(st.heap.Get(dk, ArraySort(IntSort, srt)), x.one())
+		}
 	case *ssa.Next:
 		ex.next(fr, st, i, fname)
 	case *ssa.Extract:
@@ -1502,6 +1619,25 @@ func (ex *Exec) next(fr *Frame, st *State, i *ssa.Next, fname string) {
 	present, v := ex.mapRead(st, mt, m, kv.one())
 	ex.assume(And(st.pc, ok), present)
 	ex.assumeTyped(st, v)
+	{
+		// language fact: a range over a map produces every entry at most once, and stops only when every entry that is
+		// (still) in the map has been produced (entries added during the iteration may be skipped: then nothing is assumed)
+		vk, vsrt := visitedKey(rng)
+		vis := st.heap.Get(vk, vsrt)
+		ex.assume(And(st.pc, ok), Not(Select(vis, kv.one())))
+		if mode := fr.mapLoopMode[rng]; mode != 0 {
+			q := BoundVar("vk", mapKeySort(mt))
+			pq, _ := ex.mapRead(st, mt, m, q)
+			dk, _, _ := mapKeys(mt)
+			dnow := Select(st.heap.Get(dk, ArraySort(IntSort, vsrt)), m)
+			all := Forall([]*Term{q}, Implies(pq, Select(vis, q)), [][]*Term{{Select(vis, q)}, {Select(dnow, q)}})
+			if mode == 2 {
+				all = Implies(Eq(dnow, st.heap.Get("VD"+vk[2:], vsrt)), all)
+			}
+			ex.assume(And(st.pc, Not(ok)), all)
+		}
+		st.heap.m[vk] = Ite(ok, Store(vis, kv.one(), True), vis)
+	}
 	cs := []*Term{ok}
 	// tuple type is (ok bool, k K, v V) but k/v may be typed invalid when unused
 	if len(layout(tt.At(1).Type())) == 1 {
